@@ -1,6 +1,7 @@
 CONSTANTS
   Fixed = TRUE
   MaxJumps = 16
+  ResetOnLabel = FALSE
   Dgrams <- DgQuick
 SPECIFICATION PSpec
 INVARIANTS BoundedDepth NoUninit Safe Conforms Terminates
